@@ -48,7 +48,7 @@ def run(chk: Check):
                 "(HamOracle.tla); case = one relation")
     chk.assumptions += ["finite-difference agreement is a numerical relation between runs of the code (steps h for which the two "
                         "shifted runs differ in a reconfiguration selection or clipping branch are discarded: the estimator is "
-                        "only piecewise smooth)", "primal equality 1e-9, <rdm,O> = jvp 1e-7, traces 1e-6, FD 1e-4 relative at h=1e-3",
+                        "only piecewise smooth)", "primal equality 1e-9, <rdm,O> = jvp 1e-7, traces 1e-6, FD 1e-4 relative at h=1e-3 and h^2 convergence of the central difference towards the jvp (each step /3 shrinks the residual to <= 0.4 of the previous until 2e-7 relative)",
                         "one-body limit compared with TLC's exact integers at 1e-8"]
     design(chk)
     big = chk.tier == "thorough"
@@ -56,9 +56,9 @@ def run(chk: Check):
     S = proxies.sampler_proxy()
     traces, info = [], {}
 
-    def rel_trace(name, errs, scale, bound, lo=(1, 1), ctx=None):
+    def rel_trace(name, errs, scale, bound, lo=(1, 1), ctx=None, floor=0.0):
         tid = len(traces) + 1
-        traces.append({"id": tid, "errs": list(errs), "scale": max(1.0, abs(scale)), "floor": 0.0, "lo": lo, "hi": (0, 1),
+        traces.append({"id": tid, "errs": list(errs), "scale": max(1.0, abs(scale)), "floor": floor, "lo": lo, "hi": (0, 1),
                        "first": 1, "bound": bound, "ceil": 1.0})
         info[tid] = (name, list(errs), scale, bound, ctx)
         chk.case((name, tid))
@@ -129,9 +129,12 @@ def run(chk: Check):
             errs.append(abs((float(ep) - float(em)) / (2 * h) - fwd[kobs]["deriv"]))
           chk.note(f"fd_steps_used_{ci}_{kobs}", used)
           if len(errs) >= 2:
-            # the error must not grow as h shrinks (slack 1.5 for round-off) and be small at the finest usable h
-            rel_trace(f"fd-vs-fwd:{site}", errs, fwd[kobs]["deriv"], 1e-4 if used[-1] <= 1e-3 else 1e-3, lo=(2, 3),
-                      ctx=dict(ctx, steps=used, observable=kobs))
+            # a central difference of a smooth function converges to its derivative like h^2: every step of the ladder
+            # (h shrinks by >= 3) must shrink the residual to <= 0.4 of the previous one (exact ratio 0.1; a derivative
+            # that is off by a constant leaves a residual that stops shrinking) until it is below 2e-7 relative, and it
+            # must be small at the finest usable h
+            rel_trace(f"fd-vs-fwd:{site}", errs, fwd[kobs]["deriv"], 1e-4 if used[-1] <= 1e-3 else 1e-3, lo=(5, 2),
+                      ctx=dict(ctx, steps=used, observable=kobs), floor=2e-7)
         chk.sample({"case": ctx, "E_plain": e_plain, "E_forward": e_f, "E_reverse": e_r, "jvp": fwd[0]["deriv"],
                     "rdm_dot_O": float(np.sum(rdm * obs[0])), "fd_residuals_last_observable": dict(zip(map(str, used), errs))}, limit=4)
     # ------------------------------------------------------------------ exactly solvable one-body limit
